@@ -31,9 +31,9 @@ theorem unionElems_get (gs : List (Nat × List Tri × Bool)) (off0 g nv : Nat) (
       simp only [List.getElem?_cons_succ] at hg
       simp only [unionElems, List.take_succ_cons, List.map_cons, List.sum_cons]
       rw [List.getElem?_append_right (by simp; omega)]
-      have e1 : els'.length + ((rest.take g).map fun h => h.2.1.length).sum + j - (els'.map _).length
-          = ((rest.take g).map fun h => h.2.1.length).sum + j := by simp; omega
-      simp only [List.length_map] at e1 ⊢
+      have e1 : els'.length + ((rest.take g).map fun h => h.2.1.length).sum + j - els'.length
+          = ((rest.take g).map fun h => h.2.1.length).sum + j := by omega
+      simp only [List.length_map]
       rw [e1, ih (off0 + nv') g hg]
       congr 2
       omega
